@@ -11,8 +11,15 @@ func (s *progState) allocRaw(n int) {
 	ps, aerr := tx.AllocN(n)
 	verifAssert(aerr == nil && len(ps) == n, "AllocN succeeds")
 	w := s.m.clone()
-	for _, p := range ps {
+	for k, p := range ps {
 		s.checkOwnership(w, p.ID())
+		if k >= n-3 {
+			// the last pages carry data, so that losing the tail of the file is noticed
+			b0, b1 := s.content()
+			verifAssert(p.SetBytes(verifBuf(b0, b1, b1)) == nil, "SetBytes succeeds")
+			w.pages = append(w.pages, refPage{id: p.ID(), b0: b0, b1: b1, last: b1})
+			continue
+		}
 		w.pages = append(w.pages, refPage{id: p.ID(), raw: true})
 	}
 	verifAssert(tx.Commit() == nil, "Commit succeeds")
@@ -155,6 +162,25 @@ func VerifResize() {
 			verifAssert(uint64(sz) <= uint64(limit)*verifPageSize || sz <= szBefore,
 				"the file never grows beyond max(previous extent, new limit)")
 		}
+	}
+
+	// a second change of the limit (e.g. shrink, then grow again with preallocation)
+	if verifParam("second", 1) == 1 && newMax > 0 {
+		second := []uint{newMax + 8, newMax + 40}[verifChoose(2)]
+		pre2 := verifBool("prealloc2")
+		verifLogU64("second max pages", uint64(second))
+		verifAssert(f2.Close() == nil, "File.Close succeeds")
+		diskB := memFileFrom(disk2.image(), capacity)
+		fB, errB := openWith(diskB, Options{MaxSize: uint64(second) * verifPageSize, PageSize: verifPageSize, Flags: FlagUpdMaxSize, Prealloc: pre2})
+		verifAssert(errB == nil, "opening with a second new maximum size succeeds")
+		fB.reportOpen()
+		disk2, f2 = diskB, fB
+		s.disk, s.f = diskB, fB
+		newMax = second
+		cfg.maxPages = second
+		s.checkCommitted("after the second resize")
+		wtx2, werr2 := f2.Begin()
+		verifAssert(werr2 == nil && wtx2.Close() == nil, "a write transaction can begin after the second resize")
 	}
 
 	// a later plain open reports the new limit
